@@ -55,6 +55,10 @@ CHECKS = {
   "ChangeSet_MC models ChangeSet::add over the dense storage and TLC checks it lists the arrival-order fold for every pair sequence in scope; every sequence (and random long ones over far-apart indices) is fed to the real ChangeSet by collect / extend / add in several segmentations; amounts are sequences so order of combination is observable; TLC checks listings, joins with a storage, mutable joins, consumption by value (full and partial) and drop accounting against ChangeSet_L0.",
   "oracle + enumeration; there is little state machine in this property",
   "TLA+ model checking (TLC) + trace validation against ChangeSet_L0"),
+ "C10": ("model_checking", "4 (C10)",
+  "AllocConc_L1 breaks Entities::create / delete into the code's atomic steps (load, compare-exchange with retry and spurious failure, raised.add_atomic, generation read, is_alive / killed.add_atomic) and TLC enumerates every sequentially consistent interleaving of several small thread programs, checking distinct handles, own handle alive on return, faithful deletion results and alive = initial + created - requested after the merge. The thread-id sequence of every explored transition (plus random ones) is replayed on real threads by a cooperative scheduler through add-only yield-point hooks; free-running stress runs on 2..32 threads (with joins and lazy queuing) add sampled schedules; TLC validates every logged run against Conc_L0.",
+  "weak-memory reorderings are only sampled by the free-running runs (the property says so); AtomicBitSet::add_atomic and crossbeam's SegQueue are treated as atomic",
+  "TLA+ model checking (TLC) of interleavings + schedule replay on real threads + trace validation against Conc_L0"),
 }
 
 NOT_YET = {
@@ -88,7 +92,7 @@ def main():
             "guard": "specs_verif",
             "enable": "RUSTFLAGS --cfg specs_verif via /verif/harness/.cargo/config.toml (the harness has a path dependency on /repo)",
             "baseline_off_cmd": "cd /repo && cargo test --workspace --no-fail-fast --offline",
-            "source_commits": [],
+            "source_commits": ["15c5e7b", "06dcf78"],
             "add_only": True,
         },
         "engines": [
